@@ -137,13 +137,22 @@ Example ex4_compat_rejects_wrong_type : set_compat [PField 2; PIndex 3] (VI64 0)
    splice (Node.replace), field header / key bytes of Path.ToRaw, the container's 4-byte count patched in place
    (setNotFound: +1, deleteChild: -1) — refine the AST-level edits above, for all values, paths, sub-values.
    Domain predicates (computable, model/ThriftEditBytes.v):
-     set_dom p v     a raw (binary) map key that gets INSERTED is the encoding of a key of the map's key type
-     unset_dom p v   p is not empty; a last step on a map is of the map's key kind (deleteChild compares the raw bytes
-                     of Path.ToRaw, which exist for steps of another kind too); a raw key is a key encoding
+     set_dom p v     a raw (binary) map key that gets INSERTED is a byte string (all elements in 0..255) that the proved decoder
+                     accepts completely as a key of the map's key type (then it IS the encoding of that key: C04_decode_canonical)
+     unset_dom fx p v  p is not empty; a raw key decodes as a key (as above); and for fx = false only (deleteChild BEFORE repair 384585a of
+                     finding 408, which compared Path.ToRaw's bytes whatever the step's kind): a last step on a map is of the map's key kind.
+                     The theorems hold for both versions of deleteChild (fx); the implementation is fx = true
      op_dom / history_dom   depth <= 1023 (SkipGo's limit) before every op, non-empty paths, the two above, and the
                      API contract of insertions (set_compat) that keeps the states well-formed
    ====================================================================================================== *)
-From DG Require Import ThriftEditBytes ThriftEditBytesProofs.
+From DG Require Import ThriftCanonProofs ThriftEditBytes ThriftEditBytesProofs.
+
+(* the proved decoder accepts only canonical encodings: what it accepts is the encoding of the value it returns (so a raw key
+   that decodes is the encoding of the key it denotes, and implementation bytes that decode are the encoding of the model state) *)
+Theorem C04_decode_canonical : forall d t bs v r, bytes_ok bs -> decode d t bs = Some (v, r) ->
+  bs = encode v ++ r /\ type_of v = t.
+Proof. exact decode_canonical. Qed.
+Print Assumptions C04_decode_canonical.
 
 (* the walk of SetByPath finds what the AST lookup finds: same type and span, insertion address of an absent last step *)
 Theorem C04_walk_refines : forall p v r off, wf v = true -> (depth v <= max_skip_depth)%nat ->
@@ -162,55 +171,55 @@ Print Assumptions C04_set_refines.
 
 (* UnsetByPath on the encoding: a removal yields the encoding of ast_unset's result; "nothing removed" is nil or the
    not-found error; a spec error is an error or nil — and in these cases the buffer is returned as it was *)
-Theorem C04_unset_refines : forall p v,
-  wf v = true -> (depth v <= max_skip_depth)%nat -> unset_dom p v = true ->
+Theorem C04_unset_refines : forall fx p v,
+  wf v = true -> (depth v <= max_skip_depth)%nat -> unset_dom fx p v = true ->
   match ast_unset p v with
-  | DOk v' true => unset_by_path (type_of v) (encode v) p = UbOk (encode v')
-  | DOk v' false => unset_by_path (type_of v) (encode v) p = UbOk (encode v) \/ unset_by_path (type_of v) (encode v) p = UbNotFound
-  | DErr => unset_by_path (type_of v) (encode v) p = UbErr (encode v) \/ unset_by_path (type_of v) (encode v) p = UbOk (encode v)
+  | DOk v' true => unset_by_path fx (type_of v) (encode v) p = UbOk (encode v')
+  | DOk v' false => unset_by_path fx (type_of v) (encode v) p = UbOk (encode v) \/ unset_by_path fx (type_of v) (encode v) p = UbNotFound
+  | DErr => unset_by_path fx (type_of v) (encode v) p = UbErr (encode v) \/ unset_by_path fx (type_of v) (encode v) p = UbOk (encode v)
   end.
 Proof. exact unset_refines. Qed.
 Print Assumptions C04_unset_refines.
 
 (* deleteChild alone: the victim's span (field header / key included) and the count patch, in any surrounding buffer *)
-Theorem C04_delete_child_refines : forall s c, wf c = true -> (depth c <= max_skip_depth)%nat -> unset_last_ok s c = true ->
+Theorem C04_delete_child_refines : forall fx s c, wf c = true -> (depth c <= max_skip_depth)%nat -> unset_last_ok fx s c = true ->
   match remove_at s c with
-  | DOk c' true => exists patch s0 e0, delete_child (type_of c) (encode c) s = DcFound patch s0 e0 /\
+  | DOk c' true => exists patch s0 e0, delete_child fx (type_of c) (encode c) s = DcFound patch s0 e0 /\
         forall A B, replace (apply_patch (A ++ encode c ++ B) (zlen A) patch) (zlen A + s0) (zlen A + e0) [] = A ++ encode c' ++ B
-  | DOk _ false => delete_child (type_of c) (encode c) s = DcNotFound
-  | DErr => delete_child (type_of c) (encode c) s = DcErr None \/ delete_child (type_of c) (encode c) s = DcNone
+  | DOk _ false => delete_child fx (type_of c) (encode c) s = DcNotFound
+  | DErr => delete_child fx (type_of c) (encode c) s = DcErr None \/ delete_child fx (type_of c) (encode c) s = DcNone
   end.
-Proof. intros s c Hw Hd. apply delete_child_spec. split; assumption. Qed.
+Proof. intros fx s c Hw Hd. apply delete_child_spec. split; assumption. Qed.
 Print Assumptions C04_delete_child_refines.
 
 (* one step and whole histories: every intermediate BUFFER is the encoding of the model state *)
-Theorem C04_bytes_step_refines : forall v o, wf v = true -> op_dom v o = true ->
-  bytes_step (type_of v, encode v) o = (type_of (ast_step true v o), encode (ast_step true v o)).
+Theorem C04_bytes_step_refines : forall fx v o, wf v = true -> op_dom fx v o = true ->
+  bytes_step fx (type_of v, encode v) o = (type_of (ast_step true v o), encode (ast_step true v o)).
 Proof. exact bytes_step_refines. Qed.
 Print Assumptions C04_bytes_step_refines.
 
-Theorem C04_history_refines : forall ops v, wf v = true -> history_ok true v ops = true -> history_dom v ops = true ->
-  bytes_states (type_of v, encode v) ops = map (fun s => (type_of s, encode s)) (ast_states true v ops) /\
-  fold_left bytes_step ops (type_of v, encode v) =
+Theorem C04_history_refines : forall fx ops v, wf v = true -> history_ok true v ops = true -> history_dom fx v ops = true ->
+  bytes_states fx (type_of v, encode v) ops = map (fun s => (type_of s, encode s)) (ast_states true v ops) /\
+  fold_left (bytes_step fx) ops (type_of v, encode v) =
     (type_of (fold_left (ast_step true) ops v), encode (fold_left (ast_step true) ops v)).
 Proof. exact history_refines. Qed.
 Print Assumptions C04_history_refines.
 
-Theorem C04_failed_op_bytes_unchanged : forall v, wf v = true -> (depth v <= max_skip_depth)%nat ->
+Theorem C04_failed_op_bytes_unchanged : forall fx v, wf v = true -> (depth v <= max_skip_depth)%nat ->
   (forall p x, p <> [] -> set_dom p v = true ->
      (set_by_path (type_of v) (encode v) p (encode x) (type_of x) = None <-> ast_set true p x v = None)) /\
-  (forall p, unset_dom p v = true ->
-     (forall b, unset_by_path (type_of v) (encode v) p = UbErr b -> b = encode v /\ ast_unset p v = DErr) /\
-     (unset_by_path (type_of v) (encode v) p = UbNotFound -> ast_unset p v = DOk v false)) /\
-  (forall o, op_dom v o = true ->
+  (forall p, unset_dom fx p v = true ->
+     (forall b, unset_by_path fx (type_of v) (encode v) p = UbErr b -> b = encode v /\ ast_unset p v = DErr) /\
+     (unset_by_path fx (type_of v) (encode v) p = UbNotFound -> ast_unset p v = DOk v false)) /\
+  (forall o, op_dom fx v o = true ->
      match o with OSet p x => ast_set true p x v = None | OUnset p => ast_unset p v = DErr end ->
-     bytes_step (type_of v, encode v) o = (type_of v, encode v)).
+     bytes_step fx (type_of v, encode v) o = (type_of v, encode v)).
 Proof. exact failed_op_bytes_unchanged. Qed.
 Print Assumptions C04_failed_op_bytes_unchanged.
 
 (* ---- non-vacuity at byte level ---- *)
-Example ex4_history_dom : history_dom ex4_v ex4_ops = true. Proof. vm_compute. reflexivity. Qed.
-Example ex4_bytes_final : fold_left bytes_step ex4_ops (type_of ex4_v, encode ex4_v) =
+Example ex4_history_dom : history_dom true ex4_v ex4_ops = true /\ history_dom false ex4_v ex4_ops = true. Proof. vm_compute. split; reflexivity. Qed.
+Example ex4_bytes_final : fold_left (bytes_step true) ex4_ops (type_of ex4_v, encode ex4_v) =
   (T_STRUCT, encode (fold_left (ast_step true) ex4_ops ex4_v)).
 Proof. vm_compute. reflexivity. Qed.
 (* integer keys of every width (I08 above 127 and negative), a raw key, count carry 255 -> 256 and back *)
@@ -231,9 +240,9 @@ Definition ex4b_ops : list eop :=
     OUnset [PField 4; PStrKey [107]; PIndex 0];
     OUnset [PField 2; PBinKey [255; 255; 255; 255; 255; 255; 255; 255]];
     OUnset [PField 1; PIntKey 200] ].
-Example ex4b_ok : wf ex4b_v = true /\ history_ok true ex4b_v ex4b_ops = true /\ history_dom ex4b_v ex4b_ops = true.
+Example ex4b_ok : wf ex4b_v = true /\ history_ok true ex4b_v ex4b_ops = true /\ history_dom true ex4b_v ex4b_ops = true.
 Proof. vm_compute. repeat split. Qed.
-Example ex4b_bytes_final : fold_left bytes_step ex4b_ops (type_of ex4b_v, encode ex4b_v) =
+Example ex4b_bytes_final : fold_left (bytes_step true) ex4b_ops (type_of ex4b_v, encode ex4b_v) =
   (T_STRUCT, encode (fold_left (ast_step true) ex4b_ops ex4b_v)).
 Proof. vm_compute. reflexivity. Qed.
 Example ex4b_final_value : fold_left (ast_step true) ex4b_ops ex4b_v =
@@ -241,4 +250,16 @@ Example ex4b_final_value : fold_left (ast_step true) ex4b_ops ex4b_v =
             (2, VMap T_I64 T_STRING [(VI64 9, VString [3]); (VI64 (-2), VString [1; 2])]);
             (3, VList T_BYTE (VByte 8 :: repeat (VByte 7) 254));
             (4, VMap T_STRING T_LIST [(VString [107], VList T_I16 [VI16 1])]) ].
+Proof. vm_compute. reflexivity. Qed.
+(* finding 408 as a refutation of deleteChild BEFORE the repair: a string key step on a map<i32,_> is outside the old domain,
+   inside the new one; the old code removes the entry whose key bytes equal the string's raw bytes, the repaired code reports
+   an error and returns the buffer as it was, which is what the spec says (the path addresses nothing) *)
+Definition ex408_v : tval := VStruct [ (1, VMap T_I32 T_BYTE [(VI32 0, VByte 7); (VI32 5, VByte 9)]) ].
+Example ex408_domains : unset_dom false [PField 1; PStrKey []] ex408_v = false /\ unset_dom true [PField 1; PStrKey []] ex408_v = true.
+Proof. vm_compute. split; reflexivity. Qed.
+Example ex408_spec : ast_unset [PField 1; PStrKey []] ex408_v = DErr. Proof. vm_compute. reflexivity. Qed.
+Example ex408_as_coded_refuted : unset_by_path false T_STRUCT (encode ex408_v) [PField 1; PStrKey []] =
+  UbOk (encode (VStruct [ (1, VMap T_I32 T_BYTE [(VI32 5, VByte 9)]) ])).
+Proof. vm_compute. reflexivity. Qed.
+Example ex408_repaired : unset_by_path true T_STRUCT (encode ex408_v) [PField 1; PStrKey []] = UbErr (encode ex408_v).
 Proof. vm_compute. reflexivity. Qed.
